@@ -453,6 +453,30 @@ fn gen_case(rng: &mut Rng, s: &mut Sink, dir: &str, recsize: usize, cfg: Cfg, le
     }
     let mut last_explicit = sut.now;
     for _ in 0..len {
+        if !sut.cfg.mem && rng.chance(1, 25) {
+            // a directed walk through the storage tiers: write (often with a short TTL), make it
+            // durable and offloaded, read it (disk, then cache), let it expire / replace / delete it,
+            // read again through every value-reading call
+            let k = rng.pick(&sut.keys).clone();
+            let ttl = if sut.cfg.ttl && rng.chance(2, 3) { rng.range(1, 3) } else { 0 };
+            let v = gen_value(rng);
+            exec(&mut sut, s, &Op::Ins { k: k.clone(), v: v.clone(), ts: None, ttl, api: ttl > 0, bytes_api: false });
+            exec(&mut sut, s, &Op::Flush);
+            exec(&mut sut, s, &Op::Get { k: k.clone(), bytes_api: rng.chance(1, 2) });
+            exec(&mut sut, s, &Op::Get { k: k.clone(), bytes_api: false });
+            match rng.below(4) {
+                0 => exec(&mut sut, s, &Op::Advance { ns: (ttl + 1) * 1_000_000_000 + rng.below(1000) }),
+                1 => exec(&mut sut, s, &Op::Del { k: k.clone(), ts: None }),
+                2 => exec(&mut sut, s, &Op::UTtl { k: k.clone(), ttl: rng.range(1, 2), persist: rng.chance(1, 3) }),
+                _ => exec(&mut sut, s, &Op::Ins { k: k.clone(), v: gen_value(rng), ts: None, ttl: 0, api: false, bytes_api: false }),
+            }
+            exec(&mut sut, s, &Op::Get { k: k.clone(), bytes_api: false });
+            exec(&mut sut, s, &Op::Cas { k: k.clone(), e: v.clone(), n: gen_value(rng), ts: None, ttl: 0 });
+            exec(&mut sut, s, &Op::Range { a: vec![], b: vec![0xFF; 8], lim: 100 });
+            exec(&mut sut, s, &Op::Advance { ns: 3_000_000_000 });
+            exec(&mut sut, s, &Op::Get { k: k.clone(), bytes_api: true });
+            continue;
+        }
         let op = gen_op(rng, &sut, &mut last_explicit);
         if rng.chance(1, 3) {
             sut.now += rng.range(1, 5000);
